@@ -1,31 +1,9 @@
-(* TSV: codec inverse on valid UTF-8, writer/reader round trip, and the two refutations of today's code. *)
+(* TSV: codec inverse on ALL byte strings, writer/reader round trip (explicit and implicit header). *)
 From Miller Require Import Base.Bytes Base.Record C01.Model C01.ProofsUtil.
 Open Scope char_scope.
 
-(* the byte-wise encoder the IANA text describes; the Go code equals it exactly on valid UTF-8 *)
-Definition enc_simple (s : bytes) : bytes :=
-  flat_map (fun c => match tsv_esc c with Some e => e | None => [c] end) s.
-
-Lemma is_cont_noesc c : is_cont c = true -> tsv_esc c = None.
-Proof. destruct c as [[] [] [] [] [] [] [] []]; vm_compute; intros H; try reflexivity; discriminate H. Qed.
-
-Lemma esc_ascii c e t : tsv_esc c = Some e -> utf8_len_at (c :: t) = 1.
-Proof. intros H. destruct c as [[] [] [] [] [] [] [] []]; vm_compute in H; try discriminate H; reflexivity. Qed.
-
-Lemma encode_valid s : forall k, utf8_valid_go k s = true -> tsv_encode_go k s = enc_simple s.
-Proof.
-  induction s as [|c t IH]; intros k H; [reflexivity|].
-  destruct k as [|k'].
-  - cbn [tsv_encode_go utf8_valid_go] in *. cbn [enc_simple flat_map]. fold (enc_simple t).
-    destruct (tsv_esc c) as [e|] eqn:E.
-    + rewrite (esc_ascii c e t E) in H. now rewrite IH.
-    + destruct (utf8_len_at (c :: t)) as [|n] eqn:L; [discriminate|]. now rewrite IH.
-  - cbn [tsv_encode_go utf8_valid_go] in *. apply andb_true_iff in H as [Hc H].
-    cbn [enc_simple flat_map]. fold (enc_simple t). rewrite (is_cont_noesc c Hc). now rewrite IH.
-Qed.
-
-Lemma tsv_encode_valid s : utf8_valid s = true -> tsv_encode s = enc_simple s.
-Proof. apply encode_valid. Qed.
+(* [enc_simple] is the encoder itself since /repo 6c1ca4524 (kept as a name used by the lemmas below) *)
+Definition enc_simple (s : bytes) : bytes := tsv_encode s.
 
 Lemma decode_bb r : tsv_decode (BSL :: BSL :: r) = BSL :: tsv_decode r. Proof. reflexivity. Qed.
 Lemma decode_bn r : tsv_decode (BSL :: "n" :: r) = LF :: tsv_decode r. Proof. reflexivity. Qed.
@@ -37,7 +15,7 @@ Proof. intros H. cbn [tsv_decode]. now rewrite H. Qed.
 Lemma decode_enc_simple s : tsv_decode (enc_simple s) = s.
 Proof.
   induction s as [|c t IH]; [reflexivity|].
-  cbn [enc_simple flat_map]. fold (enc_simple t). unfold tsv_esc.
+  unfold enc_simple, tsv_encode. cbn [flat_map]. fold (tsv_encode t). fold (enc_simple t). unfold tsv_esc.
   destruct (eqc c BSL) eqn:E1. { apply eqc_eq in E1. subst. cbn [app]. now rewrite decode_bb, IH. }
   destruct (eqc c LF) eqn:E2. { apply eqc_eq in E2. subst. cbn [app]. now rewrite decode_bn, IH. }
   destruct (eqc c CR) eqn:E3. { apply eqc_eq in E3. subst. cbn [app]. now rewrite decode_br, IH. }
@@ -45,18 +23,15 @@ Proof.
   cbn [app]. now rewrite decode_plain, IH.
 Qed.
 
-Lemma tsv_codec_inverse s : utf8_valid s = true -> tsv_decode (tsv_encode s) = s.
-Proof. intros H. rewrite tsv_encode_valid by assumption. apply decode_enc_simple. Qed.
-
-Lemma tsv_codec_not_inverse : exists s, tsv_decode (tsv_encode s) <> s.
-Proof. exists [ascii_of_N 255]. vm_compute. discriminate. Qed.
+Lemma tsv_codec_inverse s : tsv_decode (tsv_encode s) = s.
+Proof. apply decode_enc_simple. Qed.
 
 (* the encoder output never contains TAB, LF or CR *)
 Lemma enc_simple_clean x s :
   (x = TAB \/ x = LF \/ x = CR) -> nochar x (enc_simple s) = true.
 Proof.
   intros Hx. induction s as [|c t IH]; [reflexivity|].
-  cbn [enc_simple flat_map]. fold (enc_simple t). rewrite nochar_app, IH, andb_true_r.
+  unfold enc_simple, tsv_encode. cbn [flat_map]. fold (tsv_encode t). fold (enc_simple t). rewrite nochar_app, IH, andb_true_r.
   unfold tsv_esc.
   destruct (eqc c BSL) eqn:E1. { destruct Hx as [->|[->| ->]]; reflexivity. }
   destruct (eqc c LF) eqn:E2. { destruct Hx as [->|[->| ->]]; reflexivity. }
@@ -68,31 +43,23 @@ Qed.
 
 Lemma enc_simple_nil_inv s : enc_simple s = [] -> s = [].
 Proof.
-  destruct s as [|c t]; [reflexivity|]. cbn [enc_simple flat_map]. unfold tsv_esc.
+  destruct s as [|c t]; [reflexivity|]. unfold enc_simple, tsv_encode. cbn [flat_map]. unfold tsv_esc.
   destruct (eqc c BSL); [discriminate|]. destruct (eqc c LF); [discriminate|].
   destruct (eqc c CR); [discriminate|]. destruct (eqc c TAB); discriminate.
 Qed.
 
-Definition tsv_plain (k : bytes) : bool :=
-  forallb (fun c => match tsv_esc c with None => true | Some _ => false end) k.
-
-Lemma enc_simple_plain k : tsv_plain k = true -> enc_simple k = k.
-Proof.
-  induction k as [|c t IH]; [reflexivity|]. unfold tsv_plain. cbn [forallb]. intros H.
-  apply andb_true_iff in H as [Hc H]. cbn [enc_simple flat_map]. fold (enc_simple t).
-  destruct (tsv_esc c); [discriminate|]. cbn. f_equal. now apply IH.
-Qed.
-
 (* ---------------------------------------------------------------- representable domain and round trip *)
+(* The domain: rectangular streams with unique keys (what a header-plus-rows format can represent), of ANY bytes,
+   except -- known finding tsv-single-column-empty-cell -- a single column whose key or some value is empty
+   (the line is then empty and lib.SplitString yields zero fields instead of one empty field). *)
 Definition not_single_empty (fs : list bytes) : bool := match fs with [[]] => false | _ => true end.
-Definition tsv_key_ok (k : bytes) : bool := tsv_plain k && utf8_valid k.
 Definition wf_tsv (recs : list record) : bool :=
   rect recs
   && match recs with
      | [] => true
-     | r0 :: _ => nodupb (keys r0) && forallb tsv_key_ok (keys r0) && not_single_empty (keys r0)
+     | r0 :: _ => nodupb (keys r0) && not_single_empty (keys r0)
      end
-  && forallb (fun r => forallb utf8_valid (values r) && not_single_empty (values r)) recs.
+  && forallb (fun r => not_single_empty (values r)) recs.
 
 Lemma nochar_join c sep fs :
   nochar c sep = true -> forallb (nochar c) fs = true -> nochar c (join sep fs) = true.
@@ -103,53 +70,34 @@ Proof.
   rewrite join_cons2, !nochar_app, Hx, Hs. cbn [andb]. now apply IH.
 Qed.
 
-Lemma map_encode_valid fs : forallb utf8_valid fs = true -> map tsv_encode fs = map enc_simple fs.
-Proof.
-  induction fs as [|x fs IH]; intros H; [reflexivity|]. cbn [forallb] in H.
-  apply andb_true_iff in H as [Hx H]. cbn [map]. now rewrite tsv_encode_valid, IH.
-Qed.
-
 Lemma forallb_map {A B} (f : B -> bool) (g : A -> B) l : forallb f (map g l) = forallb (fun x => f (g x)) l.
 Proof. induction l as [|x l IH]; cbn; [reflexivity|]. now rewrite IH. Qed.
 
 Lemma forallb_true {A} (f : A -> bool) l : (forall x, f x = true) -> forallb f l = true.
 Proof. intros H. induction l; cbn; [reflexivity|]. now rewrite H. Qed.
 
-Lemma tsv_line_ok crlf fs : forallb utf8_valid fs = true -> line_ok crlf (tsv_line fs) = true.
+Lemma tsv_line_clean x fs : (x = TAB \/ x = LF \/ x = CR) -> x <> TAB -> nochar x (tsv_line fs) = true.
 Proof.
-  intros H. unfold tsv_line, line_ok. rewrite map_encode_valid by assumption.
-  rewrite nochar_join; [|reflexivity|].
-  2:{ rewrite forallb_map. apply forallb_true. intros x. apply enc_simple_clean. auto. }
-  rewrite ends_cr_nochar; [now rewrite orb_true_r|].
-  apply nochar_join; [reflexivity|]. rewrite forallb_map. apply forallb_true. intros x. apply enc_simple_clean. auto.
+  intros Hx Hnt. unfold tsv_line. apply nochar_join.
+  - unfold nochar. cbn [forallb]. rewrite andb_true_r. apply negb_true_iff. apply eqc_neq. congruence.
+  - rewrite forallb_map. apply forallb_true. intros f. now apply enc_simple_clean.
+Qed.
+
+Lemma tsv_line_ok crlf fs : line_ok crlf (tsv_line fs) = true.
+Proof.
+  unfold line_ok. rewrite tsv_line_clean; [|auto|discriminate].
+  rewrite ends_cr_nochar; [now rewrite orb_true_r|]. apply tsv_line_clean; [auto|discriminate].
 Qed.
 
 Lemma tsv_line_split fs :
-  forallb utf8_valid fs = true -> not_single_empty fs = true ->
-  map tsv_decode (split_string [TAB] (tsv_line fs)) = fs.
+  not_single_empty fs = true -> map tsv_decode (split_string [TAB] (tsv_line fs)) = fs.
 Proof.
-  intros Hv Hn. unfold tsv_line. rewrite map_encode_valid by assumption.
-  rewrite split_string_join.
-  - rewrite map_map. rewrite <- (map_id fs) at 2. apply map_ext. intros. apply decode_enc_simple.
+  intros Hn. unfold tsv_line. rewrite split_string_join.
+  - rewrite map_map. rewrite <- (map_id fs) at 2. apply map_ext. intros. apply tsv_codec_inverse.
   - discriminate.
   - rewrite forallb_map. apply forallb_true. intros x. rewrite <- nochar_freeof. apply enc_simple_clean. auto.
   - intros E. destruct fs as [|x [|y t]]; try discriminate. cbn in E. injection E as E.
     apply enc_simple_nil_inv in E. subst. discriminate.
-Qed.
-
-Lemma tsv_header_split ks :
-  forallb tsv_key_ok ks = true -> not_single_empty ks = true ->
-  split_string [TAB] (tsv_line ks) = ks.
-Proof.
-  intros Hk Hn.
-  assert (Hv : forallb utf8_valid ks = true).
-  { rewrite forallb_forall in *. intros x Hx. specialize (Hk x Hx). unfold tsv_key_ok in Hk. now apply andb_true_iff in Hk as [_ ?]. }
-  assert (Hp : map enc_simple ks = ks).
-  { rewrite <- (map_id ks) at 2. apply map_ext_in. intros x Hx. rewrite forallb_forall in Hk. specialize (Hk x Hx).
-    unfold tsv_key_ok in Hk. apply andb_true_iff in Hk as [Hk _]. now apply enc_simple_plain. }
-  unfold tsv_line. rewrite map_encode_valid by assumption. rewrite Hp.
-  apply split_string_join; [discriminate| |intros ->; discriminate].
-  rewrite <- Hp. rewrite forallb_map. apply forallb_true. intros x. rewrite <- nochar_freeof. apply enc_simple_clean. auto.
 Qed.
 
 Definition obind {A B} (x : option A) (f : A -> option B) : option B := match x with Some a => f a | None => None end.
@@ -160,32 +108,24 @@ Lemma tsv_roundtrip crlf dedupe ragged recs :
 Proof.
   unfold wf_tsv. intros H. apply andb_true_iff in H as [H Hvals]. apply andb_true_iff in H as [Hrect Hk].
   destruct recs as [|r0 rest]; [reflexivity|].
-  apply andb_true_iff in Hk as [Hk Hnse]. apply andb_true_iff in Hk as [Hnd Hkok].
+  apply andb_true_iff in Hk as [Hnd Hnse].
   unfold write_tsv. rewrite (rows_of_rect r0 rest Hrect). cbn [orb is_nil obind app].
   unfold read_tsv.
   change ([tsv_line (keys r0)] ++ map tsv_line (map values (r0 :: rest)))
     with (tsv_line (keys r0) :: map tsv_line (map values (r0 :: rest))).
   rewrite lines_of_unlines.
-  2:{ cbn [forallb]. apply andb_true_iff. split.
-      - apply tsv_line_ok. rewrite forallb_forall in *. intros x Hx. specialize (Hkok x Hx).
-        unfold tsv_key_ok in Hkok. now apply andb_true_iff in Hkok as [_ ?].
-      - rewrite map_map, forallb_map. rewrite forallb_forall in *. intros r Hr. apply tsv_line_ok.
-        specialize (Hvals r Hr). now apply andb_true_iff in Hvals as [? _]. }
-  cbv iota. rewrite tsv_header_split by assumption.
+  2:{ cbn [forallb]. rewrite tsv_line_ok. cbn [andb]. rewrite map_map, forallb_map. apply forallb_true. intros r. apply tsv_line_ok. }
+  cbv iota. rewrite tsv_line_split by assumption.
   rewrite map_map.
   apply map_opt_map_id.
   intros r Hr.
-    pose proof Hvals as Hv. rewrite forallb_forall in Hv. specialize (Hv r Hr). apply andb_true_iff in Hv as [Hv1 Hv2].
-    rewrite tsv_line_split by assumption.
-    unfold rect in Hrect. rewrite forallb_forall in Hrect. specialize (Hrect r Hr). apply list_beqb_eq in Hrect.
-    rewrite <- Hrect. rewrite <- Hrect in Hnd. now apply row_to_record_rect.
+  rewrite forallb_forall in Hvals. specialize (Hvals r Hr).
+  rewrite tsv_line_split by assumption.
+  unfold rect in Hrect. rewrite forallb_forall in Hrect. specialize (Hrect r Hr). apply list_beqb_eq in Hrect.
+  rewrite <- Hrect. rewrite <- Hrect in Hnd. now apply row_to_record_rect.
 Qed.
 
-(* today's reader does not decode header fields: a key with a backslash does not come back *)
-Lemma tsv_roundtrip_key_backslash_refuted :
+(* the remaining exclusion is genuine: today's reader rejects the writer's output for a single empty cell *)
+Lemma tsv_single_empty_cell_refuted :
   exists recs, rect recs = true /\ obind (write_tsv false false recs) (read_tsv true false) <> Some recs.
-Proof. exists [[(B "a\b", B "1")]]. split; [reflexivity|]. vm_compute. discriminate. Qed.
-
-Lemma tsv_value_bytes_refuted :
-  exists recs, rect recs = true /\ obind (write_tsv false false recs) (read_tsv true false) <> Some recs.
-Proof. exists [[(B "a", [ascii_of_N 255])]]. split; [reflexivity|]. vm_compute. discriminate. Qed.
+Proof. exists [[(B "a", [])]]. split; [reflexivity|]. vm_compute. discriminate. Qed.
